@@ -172,9 +172,12 @@ class GenModel:
                     if t['t'] == 'h':
                         d = T.scope.lookup(t['s'])
                         U = None
-                        if d is not None and d.kind == 'let' and d.init is not None and not d.assigns and not d.ppath and not getattr(d, 'twins', None) \
-                                and d.init['k'] == 'Macro' and 'tmpl' in d.init['mac']:
-                            U = self._tmpl_by_mac.get(id(d.init['mac']))
+                        init_ = d.init if d is not None else None
+                        while init_ is not None and init_['k'] in ('Ref', 'Paren'):
+                            init_ = init_['expr']
+                        if d is not None and d.kind == 'let' and init_ is not None and not d.assigns and not d.ppath and not getattr(d, 'twins', None) \
+                                and init_['k'] == 'Macro' and 'tmpl' in init_['mac']:
+                            U = self._tmpl_by_mac.get(id(init_['mac']))
                         if U is not None and U is not T and all(c in T.ctx for c in d.ctx) \
                                 and all(T.scope.lookup(h) is U.scope.lookup(h) for h in U.holes) and self._holes_stable(U, T):
                             out.extend(U.tokens)
